@@ -589,6 +589,12 @@ def generate_len_wrapper(cl: ClassIR, fn: FuncIR, emitter: Emitter) -> str:
         emitter.emit_line("Py_ssize_t val = PyLong_AsSsize_t(retval);")
     emitter.emit_dec_ref("retval", fn.ret_type)
     emitter.emit_line("if (PyErr_Occurred()) return -1;")
+    # Like CPython, a negative length is a ValueError (returning it from the slot
+    # without an exception set would be a SystemError).
+    emitter.emit_line("if (val < 0) {")
+    emitter.emit_line('    PyErr_SetString(PyExc_ValueError, "__len__() should return >= 0");')
+    emitter.emit_line("    return -1;")
+    emitter.emit_line("}")
     emitter.emit_line("return val;")
     emitter.emit_line("}")
 
